@@ -564,7 +564,7 @@ def replay_event(res, path):
     evf = os.path.join(wd, "replay.event.json")
     json.dump(case["event"], open(evf, "w"))
     tr = os.path.join(wd, f"replay.{cfg}.ndjson")
-    if case.get("mode") == "acc":
+    if case.get("mode") in ("acc", "macc"):
         # a history is stateful: the whole deterministic recording is repeated and validated again
         p = run_bin(cfg, "rec", [case["mode"], tr, str(case["seed"]), str(case["draws"])])
     elif case.get("mode") in ("poly", "mat", "rel"):
